@@ -9,8 +9,8 @@ import gens
 import pvtools
 import procoracle as po
 
-FAMILIES = ['solver', 'curve', 'membrane', 'mixture', 'process']
-BRIDGES = ['br_flux_both', 'br_solve_full_both', 'br_curve_J_both', 'br_curve_none', 'br_idealcurve_both', 'br_pureflux_both',
+FAMILIES = ['solver', 'curve', 'membrane', 'mixture', 'process', 'nicurve']
+BRIDGES = ['br_nicurve_', 'br_flux_both', 'br_solve_full_both', 'br_curve_J_both', 'br_curve_none', 'br_idealcurve_both', 'br_pureflux_both',
            'br_act_nonrtl', 'br_act_nouq', 'br_ea_one_unstated', 'br_perm_one_unstated', 'br_proc_iso_both', 'br_flux_', 'br_pureflux_']
 PROPS_V = 'Props/C19.v'
 EXTRA_TARGETS = ['Model/NumCheck.vo']
@@ -22,7 +22,7 @@ LEVEL_TEXT = ('Coq theorems (case analysis through the error monad) for all othe
               'the flux solver (any precision, via at least one driving-force evaluation), both helpers, ideal curves with >= 1 point, curves built from fluxes, every '
               'process kind with >= 1 step, the pure-component flux; mixture without parameters, missing NRTL / UNIQUAC parameters or constants, curve with neither '
               'fluxes nor permeances, < 2 experiments without activation energy => Err. Tie: the error-path bridge lemmas (exception class) of those entry points.')
-LEVEL_NOTE = 'the non-ideal diffusion curve shares the process loop shape and is covered by the sampled malformed stream; binary64 irrelevant here'
+LEVEL_NOTE = 'binary64 irrelevant here'
 TECHNIQUE = 'Coq proof (case analysis on option flags through the error monad) + error-path bridge lemmas'
 DESIGN_REF = 'DESIGN.md section 6 C19'
 
